@@ -124,7 +124,8 @@ fn c02(quick: bool) -> PropRun {
     let dev = if quick { 6 } else { 10 };
     let mut scs = from_pool(quick, "C02", oracles | O_C01);
     scs.extend(peer_stream_scenarios("C02", quick, O_C02S | O_C01 | O_DEADLINE));
-    scs.push(full_turn_scenario("C02", oracles | O_C01));
+    scs.push(full_turn_scenario("C02", oracles | O_C01, false));
+    // (the variant with a copy of an old data frame arriving one turn later - full_turn_scenario(.., true) - does not reproduce seed C02r9A yet and is not registered)
     for cfg in grid.iter() {
         if quick && !(cfg.pwin == 4 || (cfg.pwin == 4096 && cfg.pbase[0] == 0)) { continue; }
         for (name, ops) in mixed_scripts() {
@@ -189,10 +190,10 @@ pub fn peer_stream_scenarios(prop: &str, quick: bool, oracles: u32) -> Vec<Scena
 /// other channels (2100 per round, the window never empty), then - while the packet that now carries the Reliable packet's old id is
 /// still in the window - the next packets on channel 2. Whatever the sender remembers about a channel's last Reliable packet must not
 /// be mistaken for the packet that carries the same id one turn later.
-pub fn full_turn_scenario(prop: &str, oracles: u32) -> Scenario {
+pub fn full_turn_scenario(prop: &str, oracles: u32, replay: bool) -> Scenario {
     // (the script of a million packets is built when the scenario is first run, not whenever the scenario list is assembled)
     let cell: Arc<std::sync::OnceLock<Scenario>> = Arc::new(std::sync::OnceLock::new());
-    let tag = format!("{}.full-turn-of-the-packet-id-space", prop);
+    let tag = format!("{}.full-turn-of-the-packet-id-space{}", prop, if replay { ".first-data-frame-replayed" } else { "" });
     let name = format!("{}|pw4096fw4096lat1|R on ch2, 2^20 Unreliable packets of 8 bytes on ch0/ch1 (2100 per round), then U R P on ch2|ideal network|d0", tag);
     let run = move |ch: &mut Chooser| -> ExecResult {
         let sc = cell.get_or_init(|| {
@@ -201,13 +202,30 @@ pub fn full_turn_scenario(prop: &str, oracles: u32) -> Scenario {
             let mut ops: Vec<Op> = vec![send(0, 0, 2, Reliable, 20)];
             // the last packet of the last burst carries the Reliable packet's id one turn later (ids p+1 ..= p+2^20), on another channel; the
             // packets of channel 2 follow in the same round, while it is still in the window
-            let total = 1usize << 20;
+            // (replay variant: one packet fewer and the tail 25 rounds later: when everything has been delivered the next id to be assigned is the
+            // one the Reliable packet of channel 2 had a turn ago; a copy of the frame that carried it arrives 5 rounds before the tail)
+            let total = if replay { (1usize << 20) - 1 } else { 1usize << 20 };
             for k in 0..total { ops.push(send(1 + k / per_round, 0, (k % 2) as u8, Unreliable, 8)); }
-            let last = 1 + (total - 1) / per_round;
+            let last = 1 + (total - 1) / per_round + if replay { 25 } else { 0 };
             ops.push(send(last, 0, 2, Unreliable, 30)); ops.push(send(last, 0, 2, Reliable, 31)); ops.push(send(last + 1, 0, 2, Persistent, 32)); ops.push(send(last + 2, 0, 0, Reliable, 33));
             let si = Arc::new(ScriptInfo::new(crate::lwprops::warm(&ops, 30)));
             let env = LwEnv { fates: FATES_NONE, deltas: &[20], dev_rounds: 0, dev_start: 0, max_rounds: 30 + last + 3000, skip_choice: false, flush_choice: false, blackouts: &[], stop_when_idle: true, fair_delta: 20, slow_after: usize::MAX, slow_delta: 250, fuel: 20_000_000, shifts: &[] };
-            spec(&tag, &LwCfg { pwin: 4096, fwin: 4096, latency: 1, ..LwCfg::small() }, &si, env, 0, oracles)
+            if !replay { return spec(&tag, &LwCfg { pwin: 4096, fwin: 4096, latency: 1, ..LwCfg::small() }, &si, env, 0, oracles); }
+            // the network delivers a second copy of the data frame that carried channel 2's first Reliable packet one turn later
+            // (its packet ids are ahead of the receive window again; only the frame id tells that it is old)
+            let cfg = LwCfg { pwin: 4096, fwin: 4096, latency: 1, ..LwCfg::small() };
+            let lspec = LwSpec { tag: tag.clone(), cfg: cfg.clone(), script: si.clone(), env: env.clone(), d: 0, oracles, probe_round: 0 };
+            let at_round = 30 + last - 5;
+            Scenario { name: String::new(), d: 0, run: Box::new(move |ch: &mut Chooser| {
+                let mut inj = |round: usize, side: usize, tr: &Trace, _hc: &mut uflow::verif::HalfConnection| -> Vec<Vec<u8>> {
+                    if round != at_round || side != 1 { return vec![]; }
+                    use uflow::verif::Serialize;
+                    tr.ems.iter().find(|e| e.side == 0 && e.round >= 30 && matches!(&e.frame, Some(uflow::verif::frame::Frame::DataFrame(d)) if d.datagrams.iter().any(|g| g.channel_id == 2))).and_then(|e| e.frame.clone()).map(|f| vec![f.write().to_vec()]).unwrap_or_default()
+                };
+                let tr = run_lw(&cfg, &si, &env, ch, Some(&mut inj));
+                let violations = eval_oracles(&lspec, &tr);
+                ExecResult { violations, panic: None, outcome: outcome_hash(&tr), states: state_hashes(&tr), transitions: tr.obs.len() as u64 + tr.rxs.len() as u64, witnesses: witnesses(&cfg, &si, &tr), sample: None }
+            }) }
         });
         (sc.run)(ch)
     };
